@@ -79,6 +79,7 @@ import nfc.llcp
 
 from vlib import vsched
 from vlib.engine import (HarnessError, Leg, Violation, from_json, to_json,
+                         twin_env,
                          unexpected)
 from vlib.llcpair import (DATA_LINK_CONNECTION, LOGICAL_DATA_LINK,
                           RAW_ACCESS_POINT, LlcPair, other)
@@ -1756,3 +1757,8 @@ LEGS = [
              "non-trivial = the schedule switched between the two threads "
              "while both were unfinished."),
 ]
+
+# the same search in an interpreter with another string hash seed: what a
+# program gets from iterating a set / dict of names differs between runs
+_byn = dict((lg.name, lg) for lg in LEGS)
+LEGS += [twin_env(_byn['machine'], "hash77", {"PYTHONHASHSEED": "77"}, quick=500, thorough=6000)]
